@@ -536,7 +536,11 @@ class C11(Oracle):
                 return
             self._cmp(ctx, post, models.m_same_len_text(pre, new_text), 'case')
         elif k == 'assign':
-            _expect(post, models.m_assign(pre, op['text']), 'assign')
+            if not pre.text:
+                # no last character whose settings could be extended: only the text is stated
+                require(post.text == op['text'], 'assign.text', want=op['text'], got=post.text)
+            else:
+                _expect(post, models.m_assign(pre, op['text']), 'assign')
         elif k == 'strip':
             self._cmp(ctx, post, models.m_strip(pre, op['how'], op.get('chars')), 'strip')
         elif k == 'rmfix':
@@ -617,7 +621,12 @@ class C12(Oracle):
                     w.count('probe:center_odd_padding')
                 if fill in ':+-0123456789<>^':
                     w.count('probe:fill_is_grammar_character')
-            _expect(ctx.post, exp, 'pad', how=op['how'], width=op['w'], extend=ext)
+            if not pre.text:
+                # no original character: which settings the fill takes is not stated; the text is
+                require(ctx.post.text == exp.text, 'pad.text', want=exp.text, got=ctx.post.text, how=op['how'], width=op['w'])
+                w.count('skipped:pad_cells_of_empty_receiver')
+            else:
+                _expect(ctx.post, exp, 'pad', how=op['how'], width=op['w'], extend=ext)
             _probe_closure(ctx.result, 'pad')
             return
         # fmt
@@ -804,6 +813,10 @@ class C17(Oracle):
         detail = dict(selection=sel, range=[a, b], reverse=op['rev'], got=[fs, fe], value=pre.to_json())
         if b < a:
             require(res == (None, None), 'find.end_before_start', **detail)
+            return
+        if a_raw is not None and b_raw is not None and b_raw < a_raw and res == (None, None):
+            # "end < start" read on the bounds as given (e.g. start 3, end -1): admissible as well
+            ctx.world.count('find_end_before_start_on_raw_bounds')
             return
         if not sel:
             require(res == (a, b), 'find.empty_settings_returns_range', **detail)
@@ -1019,6 +1032,8 @@ class C08(Oracle):
             if ctx.ip:
                 require(ctx.result is recv, 'inplace_returns_receiver', op=ctx.op)
                 twin = getattr(ctx, 'c08_twin', None)
+                if k not in ops._INPLACE_KW:
+                    twin = None      # no inplace= variant: "copy() then mutate" is the harness's construction, not the library's
                 if twin is not None and ctx.post_all[ctx.recv_slot] is not None:
                     to = observe(twin)
                     po = ctx.post_all[ctx.recv_slot]
@@ -1108,7 +1123,11 @@ class C09(Oracle):
     def before(self, ctx):
         if (ctx.kind == 'bad' or (ctx.kind == 'fmt' and 'raw' in (ctx.op.get('spec') or {}))) and ctx.recv is not None:
             ctx.c09_renders_before = renders8(ctx.recv)
-            ctx.c09_snapshot = ctx.recv.copy() if isinstance(ctx.recv, AnsiString) else None
+            # hidden state (markers at or beyond the end) shows when something is appended; read without changing
+            try:
+                ctx.c09_snapshot = [observe(ctx.recv + 'Z').key(), observe(ctx.recv + AnsiString('Z', '34')).key()]
+            except Exception:
+                ctx.c09_snapshot = None
 
     def step(self, ctx):
         w = ctx.world
@@ -1132,8 +1151,10 @@ class C09(Oracle):
                 rb, ra = getattr(ctx, 'c09_renders_before', None), renders8(w.vals[ctx.recv_slot])
                 require(rb is None or rb == ra, 'failed_call_leaves_rendering_unchanged', op=ctx.op, before=rb, after=ra)
                 eqb = getattr(ctx, 'c09_snapshot', None)
-                if eqb is not None and isinstance(ctx.recv, AnsiString):
-                    require(ctx.recv == eqb, 'failed_call_leaves_receiver_equal_to_snapshot', op=ctx.op)
+                if eqb is not None:
+                    now = [observe(ctx.recv + 'Z').key(), observe(ctx.recv + AnsiString('Z', '34')).key()]
+                    require(now == eqb, 'failed_call_leaves_appended_text_unchanged', op=ctx.op,
+                            before=repr(eqb[0][1:3]), after=repr(now[0][1:3]))
             else:
                 # an ordinary operation with documented argument types and values raised
                 raise Fail('successful_history_then_operation_raises', op=ctx.op,
@@ -1236,7 +1257,8 @@ class C13(Oracle):
             return
         (s_res, s_exc), (a_res, a_exc) = tw
         if s_exc is not None or a_exc is not None:
-            require(type(s_exc) is type(a_exc), 'twin.same_outcome', op=ctx.op,
+            # both raise or both succeed (which of the documented error types is raised is not compared)
+            require((s_exc is None) == (a_exc is None), 'twin.same_outcome', op=ctx.op,
                     ansistring=None if s_exc is None else '%s: %s' % (type(s_exc).__name__, s_exc),
                     ansistr=None if a_exc is None else '%s: %s' % (type(a_exc).__name__, a_exc))
             return
@@ -1252,7 +1274,8 @@ class C13(Oracle):
             require(s_res == a_res, 'twin.rendering', op=ctx.op, ansistring=s_res, ansistr=a_res)
             return
         else:
-            require(s_res == a_res, 'twin.query_result', op=ctx.op, ansistring=repr(s_res), ansistr=repr(a_res))
+            if not (ctx.kind == 'query' and ctx.op.get('q') == 'repr'):      # repr() is not part of any statement
+                require(s_res == a_res, 'twin.query_result', op=ctx.op, ansistring=repr(s_res), ansistr=repr(a_res))
             return
         for j, (sv, av) in enumerate(pairs):
             require(isinstance(av, AnsiStr), 'twin.result_is_ansistr', op=ctx.op, item=j, got=type(av).__name__)
@@ -1269,11 +1292,11 @@ class C13(Oracle):
                 try:
                     x = format(sv, spec)
                 except Exception as e:
-                    x = type(e)
+                    x = Exception
                 try:
                     y = format(av, spec)
                 except Exception as e:
-                    y = type(e)
+                    y = Exception
                 require(x == y, 'twin.format', op=ctx.op, spec=spec, ansistring=repr(x), ansistr=repr(y))
             p = str.__str__(av)
             require(p == av.to_str(), 'payload_equals_rendering', payload=p, rendering=av.to_str())
